@@ -19,7 +19,7 @@ SIZES = {"quick": dict(pairs=600), "thorough": dict(pairs=9000)}
 def classes(rnd, n):
     out = []
     i = 0
-    pat = ["deep", "deep", "deep", "near", "mid", "deep", "uniform", "near", "mid", "deep"]
+    pat = ["deep", "deep", "saturating", "near", "mid", "deep", "uniform", "near", "saturating", "deep"]
     while len(out) < n:
         c = pat[i % len(pat)]
         i += 1
@@ -31,6 +31,10 @@ def classes(rnd, n):
             g = G.near_threshold(rnd)
             if g:
                 out.append(("near", g[0], g[1]))
+        elif c == "saturating":
+            g = G.saturating(rnd)
+            if g:
+                out.append(("saturating", g[0], g[1]))
         elif c == "mid":
             b = G.midtone_bg(rnd)
             end = rnd.choice([G.WHITE, G.BLACK])
